@@ -113,6 +113,69 @@ def readFrom (A : AEAD) (keyOf : Bytes → Nat) (fix : Bool) (css : Nat) (ct : B
 def seekRead (A : AEAD) (keyOf : Bytes → Nat) (fix : Bool) (css : Nat) (ct : Bytes) (off : Nat) : Res :=
   if !openable css ct then .err [] else readFrom A keyOf fix css ct (ct.length + 2) off []
 
+/-! ## the seekable reader as a state machine (one reader, many `Seek`/`Read` calls) -/
+
+/-- the fields of `seekableDecryptingReader` that survive a call -/
+structure RState where
+  pos : Nat := 0
+  segIdx : Option Nat := none      -- `segIndex` (`none` = −1: nothing buffered)
+  buf : Bytes := []                -- `s.plaintext`, the buffered segment
+  cap : Nat := 0                   -- … and the capacity of its backing array
+  lastVerified : Bool := false
+  deriving Repr, DecidableEq
+
+inductive RRes where
+  | bytes (b : Bytes)
+  | eof
+  | err
+  deriving Repr, DecidableEq
+
+/-- `loadSegment j`. The code decrypts into the buffer of the previously loaded segment
+(`cipher.Open(s.plaintext[:0], …)`): when authentication fails, `Open` has zeroed the would-be plaintext
+(`len − 16` bytes) in that buffer — if its capacity sufficed, else it worked on a fresh array — while
+`segIndex` still names the old segment. `fixBuf` = the repaired code forgets the buffered segment
+(fixes/C16-invalidate-buffer-on-failed-load.patch). -/
+def rLoad (A : AEAD) (keyOf : Bytes → Nat) (fixBuf : Bool) (css : Nat) (ct : Bytes) (j : Nat) (s : RState) : Bool × RState :=
+  match loadSeg A keyOf css ct j with
+  | some seg =>
+    (true, { s with segIdx := some j, buf := seg, cap := max s.cap seg.length,
+                    lastVerified := s.lastVerified || j == numSegR css ct.length - 1 })
+  | none =>
+    let len := ctLen css ct.length j
+    if len < tagLen || j ≥ 4294967296 then (false, s)        -- refused before any decryption
+    else if fixBuf then (false, { s with segIdx := none, buf := [] })
+    else
+      let m := len - tagLen
+      if m ≤ s.cap then (false, { s with buf := List.replicate (min m s.buf.length) 0 ++ s.buf.drop m })
+      else (false, s)
+
+/-- one `Read(p)` with `len(p) = n` -/
+def rRead (A : AEAD) (keyOf : Bytes → Nat) (fixEof fixBuf : Bool) (css : Nat) (ct : Bytes) (n : Nat) (s : RState) : RRes × RState :=
+  if s.pos ≥ ptLenR css ct.length then
+    if fixEof && !s.lastVerified then
+      let r := rLoad A keyOf fixBuf css ct (numSegR css ct.length - 1) s
+      (if r.1 then .eof else .err, r.2)
+    else (.eof, s)
+  else
+    let j := segFor css s.pos
+    let r := if s.segIdx = some j then (true, s) else rLoad A keyOf fixBuf css ct j s
+    if !r.1 then (.err, r.2) else
+    let chunk := (r.2.buf.drop (s.pos - ptStart css j)).take n
+    (.bytes chunk, { r.2 with pos := s.pos + chunk.length })
+
+inductive ROp where
+  | seek (abs : Nat)     -- `Seek` to an absolute, non-negative position (whence arithmetic is the caller's)
+  | read (n : Nat)
+  deriving Repr, DecidableEq
+
+/-- a history on one reader: the results of its reads, each with the position it was issued at -/
+def rRun (A : AEAD) (keyOf : Bytes → Nat) (fixEof fixBuf : Bool) (css : Nat) (ct : Bytes) : List ROp → RState → List (Nat × RRes)
+  | [], _ => []
+  | .seek a :: ops, s => rRun A keyOf fixEof fixBuf css ct ops { s with pos := a }
+  | .read n :: ops, s =>
+    let r := rRead A keyOf fixEof fixBuf css ct n s
+    (s.pos, r.1) :: rRun A keyOf fixEof fixBuf css ct ops r.2
+
 /-! ## tink-go's sequential reader (used when the inner store's reader cannot seek) -/
 
 /-- tink-go's `noncebased.Reader.Read`: it asks for one segment plus one look-ahead byte. Fewer bytes than
